@@ -10,21 +10,24 @@ Open Scope N_scope.
 
 (* ---- preconditions ---------------------------------------------------------------- *)
 (* a first-level child that reaches a WildcardNode of the holder's wildcard *)
-Definition child_ok (c : wcfg) (m' : nsmap) (k : itree) : bool :=
-  negb (existsb (str_eqb (i_name k)) (c_typed c)) && match_namespace (c_nss c) (i_name k) && fl_generic m' k.
+Definition not_in_reg (reg : list wcfg) (q : str) : bool :=
+  match find (fun n => str_eqb (c_rq n) q) reg with Some _ => false | None => true end.
+Definition child_ok (reg : list wcfg) (c : wcfg) (m' : nsmap) (k : itree) : bool :=
+  negb (existsb (str_eqb (i_name k)) (c_typed c)) && match_namespace (c_nss c) (i_name k) && fl_generic m' k
+  && not_in_reg reg (i_name k).
 
 (* the wildcard var matches its own synthetic qname (bind_object looks it up again) *)
 Definition cfg_ok (c : wcfg) : bool :=
   match_namespace (c_nss c) (c_vq c) && negb (existsb (str_eqb (c_vq c)) (c_typed c)).
 
-Definition holder_pre (c : wcfg) (t : itree) : bool :=
+Definition holder_pre (reg : list wcfg) (c : wcfg) (t : itree) : bool :=
   let m' := i_nsd t ++ [] in
   cfg_ok c
   && str_eqb (i_name t) (c_rq c)
   && negb (has_xsi (i_atts t))
   && all_ws (i_tail t)
   && ws_consistent (i_text t)
-  && forallb (child_ok c m') (i_kids t)
+  && forallb (child_ok reg c m') (i_kids t)
   && (match c_kind c with
       | KSingle => match i_atts t with [] => true | _ => false end
       | KChoice => all_ws (i_text t) && (c_amap c || match i_atts t with [] => true | _ => false end)
@@ -32,29 +35,30 @@ Definition holder_pre (c : wcfg) (t : itree) : bool :=
       end)
   && g_wf [] t && guard_any [] t.
 
-Lemma child_of_root_ok c m' k pos :
-  child_ok c m' k = true ->
-  child_of_root c (i_name k) (i_atts k) (i_nsd k ++ m') pos
+Lemma child_of_root_ok reg c m' k pos :
+  child_ok reg c m' k = true ->
+  child_of_root reg c (i_name k) (i_atts k) (i_nsd k ++ m') pos
   = Ok (NWild (c_vq c) (i_atts k) (i_nsd k ++ m') pos).
 Proof.
-  unfold child_ok, child_of_root, fl_generic. intros H.
-  apply andb_true_iff in H as [H H3]. apply andb_true_iff in H as [H1 H2].
+  unfold child_ok, child_of_root, fl_generic, generic_or_class, not_in_reg. intros H.
+  apply andb_true_iff in H as [H H4]. apply andb_true_iff in H as [H H3]. apply andb_true_iff in H as [H1 H2].
   apply negb_true_iff in H1. rewrite H1, H2. cbn [negb].
+  destruct (find (fun n => str_eqb (c_rq n) (i_name k)) reg); [discriminate|].
   destruct (xsi_type (i_atts k) (i_nsd k ++ m')) as [[t|]|e]; try discriminate; [|reflexivity].
   destruct (datatype_of_qname t); [discriminate|reflexivity].
 Qed.
 
 (* ---- parsing the children of the holder --------------------------------------------- *)
-Lemma root_forest c o ra m' p ks : forall i objs rest,
-  forallb (child_ok c m') ks = true ->
-  prun (MTyped c) (flat_mapi (fun i k => pump o m' (i :: p) k) i ks ++ rest) (mkP [NRoot ra m'] objs None)
-  = prun (MTyped c) rest (mkP [NRoot ra m'] (objs ++ keyed (c_vq c) (any_kids o m' p i ks)) None).
+Lemma root_forest reg c o ra m' p ks : forall i objs rest,
+  forallb (child_ok reg c m') ks = true ->
+  prun (MTyped reg c) (flat_mapi (fun i k => pump o m' (i :: p) k) i ks ++ rest) (mkP [NRoot ra m'] objs None)
+  = prun (MTyped reg c) rest (mkP [NRoot ra m'] (objs ++ keyed (c_vq c) (any_kids o m' p i ks)) None).
 Proof.
   induction ks as [|k ks IH]; intros i objs rest H.
   - cbn. rewrite app_nil_r. reflexivity.
   - cbn in H. apply andb_true_iff in H as [Hk Hks].
     cbn [flat_mapi]. rewrite <- app_assoc.
-    pose proof (child_of_root_ok c m' k (length objs) Hk) as C.
+    pose proof (child_of_root_ok reg c m' k (length objs) Hk) as C.
     destruct k as [kn ka kd kx kks kl]. cbn [i_name i_atts i_nsd] in C.
     cbn [pump]. cbn [app prun pstep pstart p_queue p_objs p_done]. rewrite C.
     rewrite <- app_assoc. cbn [app].
@@ -64,15 +68,15 @@ Proof.
     unfold any_kids. cbn [mapi keyed map]. rewrite <- app_assoc. reflexivity.
 Qed.
 
-Lemma holder_parse c o rq ra rd rx ks rl :
-  has_xsi ra = false -> forallb (child_ok c (rd ++ [])) ks = true ->
-  wild_parse c (pump o [] [] (INode rq ra rd rx ks rl))
+Lemma holder_parse reg c o rq ra rd rx ks rl :
+  has_xsi ra = false -> forallb (child_ok reg c (rd ++ [])) ks = true ->
+  wild_parse reg c (pump o [] [] (INode rq ra rd rx ks rl))
   = bind_root c ra (rd ++ []) (cut (o_text o []) rx) (cut (o_tail o []) rl)
               (keyed (c_vq c) (any_kids o (rd ++ []) [] 0 ks)).
 Proof.
   intros Hx Hk. unfold wild_parse. cbn [pump].
   cbn [prun pstep pstart pinit p_queue p_objs p_done]. rewrite Hx.
-  rewrite (root_forest c o ra (rd ++ []) [] ks 0 [] _ Hk).
+  rewrite (root_forest reg c o ra (rd ++ []) [] ks 0 [] _ Hk).
   cbn [app prun pstep pend p_queue p_objs p_done].
   destruct (bind_root c ra (rd ++ []) (cut (o_text o []) rx) (cut (o_tail o []) rl)
                       (keyed (c_vq c) (any_kids o (rd ++ []) [] 0 ks))); reflexivity.
@@ -130,7 +134,7 @@ Section Bind.
 End Bind.
 
 Definition is_elem (v : gval) : bool :=
-  match v with GAny (Some _) _ _ _ _ => true | GDerived _ _ => true | _ => false end.
+  match v with GAny (Some _) _ _ _ _ => true | GDerived _ _ => true | GHolder _ _ _ _ => true | _ => false end.
 
 Lemma any_kids_elem o m' p ks : forall i, forallb is_elem (any_kids o m' p i ks) = true.
 Proof.
@@ -151,7 +155,7 @@ Proof.
   - cbn [keyed map fold_left]. rewrite (bind_object_key c Hc), Hk. reflexivity.
   - cbn in He. apply andb_true_iff in He as [H1 _].
     assert (E : bind_wild_var KSingle (WOne v1) v2 = WOne (GAny None None None [v1; v2] [])).
-    { destruct v1 as [[q|] ? ? ? ?| |]; try discriminate; reflexivity. }
+    { destruct v1 as [[q|] ? ? ? ?| | |]; try discriminate; reflexivity. }
     cbn [keyed map fold_left]. rewrite (bind_object_key c Hc), Hk.
     change (bind_wild_var KSingle WNone v1) with (WOne v1).
     rewrite (bind_object_key c Hc), Hk, E. fold (keyed (c_vq c) vs).
@@ -182,9 +186,9 @@ Proof.
   cbn [normalize_content]. rewrite (all_ws_py _ H). reflexivity.
 Qed.
 
-Theorem holder_captures c o t :
-  is_full o -> holder_pre c t = true ->
-  wild_parse c (pump o [] [] t)
+Theorem holder_captures reg c o t :
+  is_full o -> holder_pre reg c t = true ->
+  wild_parse reg c (pump o [] [] t)
   = Ok (mkRobj (if c_amap c then parse_any_attributes (i_nsd t ++ []) (i_atts t) else [])
                (holder_value c (normalize_content (cut None (i_text t)))
                              (any_kids o (i_nsd t ++ []) [] 0 (i_kids t)))).
@@ -194,8 +198,8 @@ Proof.
   apply andb_true_iff in H as [H Hkids]. apply andb_true_iff in H as [H Hws]. apply andb_true_iff in H as [H Htl].
   apply andb_true_iff in H as [H Hxsi]. apply andb_true_iff in H as [Hc Hname].
   apply negb_true_iff in Hxsi.
-  rewrite (holder_parse c o rq ra rd rx ks rl Hxsi Hkids). rewrite Hot, Hol.
-  unfold bind_root.
+  rewrite (holder_parse reg c o rq ra rd rx ks rl Hxsi Hkids). rewrite Hot, Hol.
+  unfold bind_root, bind_core, finish_w, holder_atts.
   rewrite (normalize_all_ws rl Htl). cbn [truthy andb].
   set (vs := any_kids o (rd ++ []) [] 0 ks).
   set (tx := normalize_content (cut None rx)).
@@ -226,27 +230,27 @@ Qed.
 (* C11: "the stand-alone tree parser builds the same generic tree" — a class with a
    single wildcard field and one child element holds exactly what the TreeParser
    builds for that element in the same context *)
-Theorem tree_parser_eq_wildcard_capture c o rq rd rx k rl :
+Theorem tree_parser_eq_wildcard_capture reg c o rq rd rx k rl :
   is_full o -> c_kind c = KSingle -> all_ws rx = true ->
-  holder_pre c (INode rq [] rd rx [k] rl) = true ->
+  holder_pre reg c (INode rq [] rd rx [k] rl) = true ->
   exists v, tree_parse (pump o (rd ++ []) [O] k) = Some v /\
-            wild_parse c (pump o [] [] (INode rq [] rd rx [k] rl)) = Ok (mkRobj [] (WOne v)).
+            wild_parse reg c (pump o [] [] (INode rq [] rd rx [k] rl)) = Ok (mkRobj [] (WOne v)).
 Proof.
   intros Ho K Hx H. exists (any_of o (rd ++ []) [O] k). split; [apply tree_parse_pump|].
-  rewrite (holder_captures c o _ Ho H). cbn [i_nsd i_atts i_text i_kids].
+  rewrite (holder_captures reg c o _ Ho H). cbn [i_nsd i_atts i_text i_kids].
   rewrite (normalize_all_ws rx Hx). unfold holder_value. rewrite K.
   cbn [parse_any_attributes map]. destruct (c_amap c); reflexivity.
 Qed.
 
 (* and, for list-valued placements, child by child *)
-Theorem wildcard_list_captures_tree_parser c o t :
-  is_full o -> c_kind c <> KSingle -> holder_pre c t = true ->
+Theorem wildcard_list_captures_tree_parser reg c o t :
+  is_full o -> c_kind c <> KSingle -> holder_pre reg c t = true ->
   exists vs,
     map Some vs = mapi (fun i k => tree_parse (pump o (i_nsd t ++ []) [i] k)) 0 (i_kids t) /\
-    exists pre ra, wild_parse c (pump o [] [] t) = Ok (mkRobj ra (WMany (pre ++ vs))).
+    exists pre ra, wild_parse reg c (pump o [] [] t) = Ok (mkRobj ra (WMany (pre ++ vs))).
 Proof.
   intros Ho K H. exists (any_kids o (i_nsd t ++ []) [] 0 (i_kids t)). split; [apply any_kids_tree_parse|].
-  rewrite (holder_captures c o t Ho H). unfold holder_value.
+  rewrite (holder_captures reg c o t Ho H). unfold holder_value.
   destruct (c_kind c); [congruence| | |]; eexists; eexists; try reflexivity.
   instantiate (1 := []). reflexivity.
 Qed.
@@ -255,8 +259,8 @@ Qed.
 Lemma opt_concat_some {A} (l : list (list A)) : opt_concat (map Some l) = Some (concat l).
 Proof. induction l as [|x l IH]; cbn; [reflexivity| rewrite IH; reflexivity]. Qed.
 
-Lemma gen_choice_kids c o m' p ks : forall i,
-  forallb (child_ok c m') ks = true ->
+Lemma gen_choice_kids reg c o m' p ks : forall i,
+  forallb (child_ok reg c m') ks = true ->
   map (gen_choice c) (any_kids o m' p i ks) = map Some (map gen_val (any_kids o m' p i ks)).
 Proof.
   induction ks as [|k ks IH]; intros i H; [reflexivity|].
@@ -264,7 +268,7 @@ Proof.
   unfold any_kids in *. cbn [mapi map]. rewrite (IH (S i) Hks). f_equal.
   destruct k as [n a d x kk l]. rewrite any_of_eq. cbn zeta. cbn [gen_choice].
   unfold child_ok in Hk. cbn [i_name] in Hk.
-  apply andb_true_iff in Hk as [Hk _]. apply andb_true_iff in Hk as [_ Hm]. rewrite Hm, orb_true_r. reflexivity.
+  apply andb_true_iff in Hk as [Hk _]. apply andb_true_iff in Hk as [Hk _]. apply andb_true_iff in Hk as [_ Hm]. rewrite Hm, orb_true_r. reflexivity.
 Qed.
 
 Lemma flat_map_concat {A B} (f : A -> list B) l : flat_map f l = concat (map f l).
@@ -348,11 +352,11 @@ Lemma normalize_nonempty v : normalize_content v <> Some [].
 Proof. destruct v as [[|c s]|]; cbn [normalize_content forallb]; try congruence. destruct (py_isspace c && forallb py_isspace s); congruence. Qed.
 
 (* C11 for holder classes (specification reading of the writer events) *)
-Theorem holder_roundtrip_ok c o t :
-  is_full o -> holder_pre c t = true ->
-  holder_roundtrip c o t = Some (norm_ws_root (canon [] t)).
+Theorem holder_roundtrip_ok reg c o t :
+  is_full o -> holder_pre reg c t = true ->
+  holder_roundtrip reg c o t = Some (norm_ws_root (canon [] t)).
 Proof.
-  intros Ho H. unfold holder_roundtrip. rewrite (holder_captures c o t Ho H).
+  intros Ho H. unfold holder_roundtrip. rewrite (holder_captures reg c o t Ho H).
   destruct t as [rq ra rd rx ks rl]. unfold holder_pre in H. cbn [i_name i_atts i_nsd i_text i_kids i_tail] in *.
   apply andb_true_iff in H as [H Hg]. apply andb_true_iff in H as [H Hwf]. apply andb_true_iff in H as [H Hkind].
   apply andb_true_iff in H as [H Hkids]. apply andb_true_iff in H as [H Hws]. apply andb_true_iff in H as [H Htl].
@@ -389,7 +393,7 @@ Proof.
       { cbn in Hkind. apply andb_true_iff in Hkind as [Hx _]. unfold tx. apply normalize_all_ws. exact Hx. }
       exists (flat_map gen_val (text_item tx ++ vs)). split; [|apply content_list; assumption].
       rewrite T. cbn [text_item app].
-      unfold vs. rewrite (gen_choice_kids c o rd [] ks 0 Hkids), opt_concat_some, <- flat_map_concat. reflexivity. }
+      unfold vs. rewrite (gen_choice_kids reg c o rd [] ks 0 Hkids), opt_concat_some, <- flat_map_concat. reflexivity. }
   destruct G as (evs & Ge & Gc).
   fold ratts. fold vs. fold tx. rewrite Ge.
   rewrite (wrun_holder (c_rq c) ratts evs tx vs Hnd Gc).
@@ -411,14 +415,14 @@ Definition w_ok_amap : itree :=
   match w_ok_holder with INode n _ d x k l => INode n [([122], [49]); ([121], [113; 58; 49])] d x k l end.
 
 Example holder_pre_nonvacuous :
-  holder_pre cfg_single w_ok_holder = true /\ holder_pre cfg_list w_ok_holder = true /\
-  holder_pre cfg_mixed w_ok_holder = true /\ holder_pre cfg_choice w_ok_choice = true /\
-  holder_pre cfg_list_amap w_ok_amap = true.
+  holder_pre reg_w cfg_single w_ok_holder = true /\ holder_pre reg_w cfg_list w_ok_holder = true /\
+  holder_pre reg_w cfg_mixed w_ok_holder = true /\ holder_pre reg_w cfg_choice w_ok_choice = true /\
+  holder_pre reg_w cfg_list_amap w_ok_amap = true.
 Proof. repeat split; vm_compute; reflexivity. Qed.
 
 Example holder_roundtrip_computed :
-  holder_roundtrip cfg_single full_oracle w_ok_holder = expect_root w_ok_holder /\
-  holder_written cfg_single full_oracle w_ok_holder = expect_root w_ok_holder /\
-  holder_written cfg_list_amap full_oracle w_ok_amap = expect_root w_ok_amap /\
-  holder_written cfg_choice full_oracle w_ok_choice = expect_root w_ok_choice.
+  holder_roundtrip reg_w cfg_single full_oracle w_ok_holder = expect_root w_ok_holder /\
+  holder_written reg_w cfg_single full_oracle w_ok_holder = expect_root w_ok_holder /\
+  holder_written reg_w cfg_list_amap full_oracle w_ok_amap = expect_root w_ok_amap /\
+  holder_written reg_w cfg_choice full_oracle w_ok_choice = expect_root w_ok_choice.
 Proof. repeat split; vm_compute; reflexivity. Qed.
